@@ -770,4 +770,16 @@ mod tests {
 #[allow(unused_imports, missing_docs, dead_code, unreachable_pub)]
 pub mod verif {
     use super::*;
+
+    /// C16: `EdsNotification::deserialize_and_validate` on raw ShrEx/Sub bytes: `(height, data_hash bytes)`
+    pub fn eds_notification_deserialize_and_validate(data: &[u8]) -> Result<(u64, Vec<u8>), String> {
+        EdsNotification::deserialize_and_validate(data)
+            .map(|n| (n.height, n.data_hash.as_bytes().to_vec()))
+            .map_err(|e| e.to_string())
+    }
+
+    /// C16: the data hash of the empty block that notifications must not carry
+    pub fn empty_eds_data_hash() -> Vec<u8> {
+        EMPTY_EDS_DATA_HASH.as_bytes().to_vec()
+    }
 }
